@@ -120,6 +120,18 @@ def check(rep, F, tier, replay=None):
         if not ords or not ords[0]["derive"]:
             rep.violation("KEY", k["adt"] + "|ord", "%s no longer derives Ord" % H.short(k["adt"]), {})
     wildarms.check(rep, F, "C10")
+    # REPLACE: re-registering an outpoint must not leave the old script witness behind (two witnesses would share one input pointer)
+    rep.rule("REPLACE", "TxInputsBuilder::push_input, which overwrites an existing registration of the same outpoint, removes that outpoint's old entry from required_witnesses.scripts: otherwise the old script / datum / redeemer are still emitted and two redeemers point at one input")
+    fid = find_fn(rep, F, "TxInputsBuilder::push_input")
+    if fid:
+        rep.inst("REPLACE")
+        tos = [c.to or "" for c in F.calls(fid)]
+        overwrites = any(t.endswith("BTreeMap::<K, V, A>::insert") for t in tos)
+        cleans = any(("LinkedHashMap" in t or "linked_hash_map" in t) and t.rsplit("::", 1)[-1] in ("remove", "retain", "pop_front", "clear") for t in tos)
+        if not overwrites:
+            rep.lost("TxInputsBuilder::push_input no longer inserts into the input map (re-anchor REPLACE)")
+        elif not cleans:
+            rep.violation("REPLACE", "TxInputsBuilder::push_input|stale-script-witness", "push_input overwrites the registration of an outpoint that is already in the builder but never removes the outpoint from required_witnesses.scripts: after add_plutus_script_input(A, x) and add_plutus_script_input(B, x) both scripts, both datums and two Spend redeemers with the same index are emitted for one input", {})
     return rep.finish(
         EXPLANATION,
         ["the body field of each purpose is built from the same container (BODY-origin rule of C18)", "enumerate() counts from 0 in iteration order (std)",
